@@ -135,8 +135,8 @@ func (rw *RuntimeErrorWrapper) Error() string {
 		// append body
 		for _, tr := range callStack[1:] {
 			trModule := tr.GetModule()
-			isNativeModule = trModule.GetID() == r.NATIVE_CODE_MODULE_ID || module.GetProgram() == nil
 			if trModule != nil {
+				isNativeModule = trModule.GetID() == r.NATIVE_CODE_MODULE_ID || trModule.GetProgram() == nil
 				errLines = append(errLines, fmtErrorLocationBodyLine(isNativeModule, trModule.GetName(), tr.GetCurrentLine()+1))
 				// get line text
 				if !isNativeModule {
